@@ -758,7 +758,10 @@ func c15Replay(args []string) int {
 				if realPost == nil {
 					realPost = []any{}
 				}
-				rec := J{"pre": e.Pre, "act": e.Act, "post": realPost, "err": realErr, "sel": sel, "match": okEdge, "n": jb.n}
+				// what the comparison leaves out for this step or chain (see Transforms.tla): enum member names
+				// after prefix_objects_names, discriminator-mapping targets after replace_reference
+				rec := J{"pre": e.Pre, "act": e.Act, "post": realPost, "err": realErr, "sel": sel, "match": okEdge, "n": jb.n,
+					"nomembers": strings.Contains(actName, "prefix_objects_names"), "nomappings": strings.Contains(actName, "replace_reference")}
 				raw, _ := json.Marshal(rec)
 				tw.Write(raw)
 				tw.WriteByte('\n')
